@@ -937,7 +937,7 @@ def r6(ctx):
     env = {k: v for k, v in single_defs(f.node).items() if k != "args"}
     sc_e = inline(kw.get("scores"), env, depth=1) if "scores" in kw else None
     ok = U(kw.get("batch_plate_ids")) == "args.batch_plate_id" and sc_e is not None and \
-        U(sc_e).replace(" ", "") == "ChunkedScoresHolder.concat([ChunkedScoresHolder.load_h5(x)forxinargs.scores])"
+        __import__("engine.astutil", fromlist=["UA"]).UA(sc_e) == __import__("engine.astutil", fromlist=["UA"]).UA("ChunkedScoresHolder.concat([ChunkedScoresHolder.load_h5(x) for x in args.scores])")
     ctx.check("R6", f"{f.site()}::select_next_plate-arguments", ok, "batch ids and the concatenation of all score files are passed",
               f"batch_plate_ids={U(kw.get('batch_plate_ids'))}, scores={U(sc_e) if sc_e is not None else None}")
     res = [U(n.targets[0]) for n in walk_own(f.node) if isinstance(n, ast.Assign) and n.value is sn[0]]
